@@ -82,4 +82,14 @@ CLAIMS["C13"] = dict(
           "monotonicity precondition of the radix heap. IntegerRank's sign-bit table is enforced by the library's own static_asserts (a broken table does not compile)."),
 )
 
+CLAIMS["C17"] = dict(
+    level="other",
+    technique="static analysis: per-path effect summaries of the LRU mutators over the atoms found/already-front; CFG must-pass-through, null-contradiction and link-overwrite rules on the splay tree functions; orientation tables",
+    text=("LRU-COUPLED / LRU-ENDS / LRU-THROW-GUARD / LRU-PUT-STORES for all mutators of LruCacheSet and LruCacheMap on every path (hit and miss). "
+          "SplayTree: SPLAY-WRITEBACK (the root returned by splay() is stored back on all paths), SPLAY-NULL (no dereference where the tree may be empty), "
+          "SPLAY-OWNER (clear() nulls root_), SPLAY-LINK (no child link overwritten unless saved or known empty), SPLAY-ALLOC-PAIR, SPLAY-ORIENT. "
+          "These rules found three genuine defects (clear(), exists() on an empty tree, multiset erase losing nodes), all fixed."),
+    note=(TRUST + "Not decided: LRU order and BST order/rotations over whole histories; SplayTree::check() rejecting equal keys of a multiset is outside the property's operation list."),
+)
+
 NOT_APPLICABLE = {}
